@@ -1,5 +1,198 @@
-From Coq Require Import List.
-From GolemV Require Import Graph.QueriesSpec Graph.Queries Graph.QueriesProofs.
-Theorem C12_stub : forall g, length (nodes g) = length g.
-Proof. exact stub_nodes_length. Qed.
-Print Assumptions C12_stub.
+(* C12 - Structural queries agree with graph-theoretic ground truth.
+   Only statements, closed by `exact` (short glue allowed), each followed by Print Assumptions.
+   Model: Graph/Queries.v; specification and independent oracle: Graph/QueriesSpec.v;
+   proofs: Graph/Queries{Basics,Cycle,Local,Hier,Depth,Oracle,Proofs}.v, Base/Closure.v.
+
+   Notation of the specification: `edge g c p` = p is a parent (nodes_from) of c; `reach`/`plus`
+   = reflexive / non-reflexive transitive closure; `cyclic g`; `cycle_from g v` = a cycle is
+   reachable from v through parents; `ancestor g v a`; `sink` = nobody's parent (GOLEM: "root");
+   `height g v k` = k nodes lie on a longest path ending in v; `gheight`, `lheight` likewise for
+   the whole graph / a list of nodes; `wf g` = every parent index is a node (closed graph). *)
+From Coq Require Import List Arith Bool ZArith.
+From GolemV Require Import Graph.QueriesProofs.
+Import ListNotations.
+
+(* ---- graph_has_cycle -------------------------------------------------------------------- *)
+(* the literal iterative DFS, for EVERY graph (no well-formedness needed) and every fuel on
+   which the run returns: the answer is true exactly when a directed cycle exists *)
+Theorem C12_has_cycle_correct : forall g fuel b,
+  has_cycle_fuel fuel g = Some b -> (b = true <-> cyclic g).
+Proof. exact has_cycle_correct. Qed.
+Print Assumptions C12_has_cycle_correct.
+
+(* never a hang: n + |E| + 2 iterations per run of the while loop always suffice *)
+Theorem C12_has_cycle_fuel_suffices : forall g fuel,
+  wf g -> length g + n_edges g + 2 <= fuel -> exists b, has_cycle_fuel fuel g = Some b.
+Proof. exact has_cycle_fuel_suffices. Qed.
+Print Assumptions C12_has_cycle_fuel_suffices.
+
+Theorem C12_has_cycle_terminates : forall g, wf g -> exists b, has_cycle g = Some b.
+Proof. exact has_cycle_terminates. Qed.
+Print Assumptions C12_has_cycle_terminates.
+
+Theorem C12_has_cycle_iff : forall g, wf g ->
+  (has_cycle g = Some true <-> cyclic g) /\ (has_cycle g = Some false <-> ~ cyclic g).
+Proof. exact has_cycle_iff. Qed.
+Print Assumptions C12_has_cycle_iff.
+
+(* ---- root_nodes / node_children / get_edges ----------------------------------------------- *)
+Theorem C12_root_nodes_exact : forall g,
+  NoDup (root_nodes g) /\ forall v, In v (root_nodes g) <-> sink g v.
+Proof. intros g. split; [apply root_nodes_NoDup|apply root_nodes_spec]. Qed.
+Print Assumptions C12_root_nodes_exact.
+
+Theorem C12_node_children_exact : forall g v,
+  NoDup (node_children g v) /\ forall c, In c (node_children g v) <-> c < length g /\ edge g c v.
+Proof. intros g v. split; [apply node_children_NoDup|apply node_children_spec]. Qed.
+Print Assumptions C12_node_children_exact.
+
+Theorem C12_get_edges_exact : forall g,
+  (forall p c, In (p, c) (get_edges g) <-> edge g c p) /\
+  ((forall v, NoDup (parents g v)) -> NoDup (get_edges g)).
+Proof. intros g. split; [apply get_edges_spec|apply get_edges_NoDup]. Qed.
+Print Assumptions C12_get_edges_exact.
+
+(* ---- ordered_subnodes_hierarchy ------------------------------------------------------------ *)
+(* for every fuel: an error means a reachable cycle; a list means no reachable cycle, the node
+   first, no repetition, and exactly the ancestors behind it *)
+Theorem C12_hierarchy_sound : forall g fuel v,
+  (hierarchy_fuel fuel g v = Raise -> cycle_from g v) /\
+  (forall l, hierarchy_fuel fuel g v = Ok l ->
+     ~ cycle_from g v /\ NoDup l /\ exists l', l = v :: l' /\ forall x, In x l' <-> ancestor g v x).
+Proof. intros g fuel v. split; [apply hierarchy_raise|intros l; apply hierarchy_ok]. Qed.
+Print Assumptions C12_hierarchy_sound.
+
+Theorem C12_hierarchy_correct : forall g v, wf g -> v < length g ->
+  (hierarchy g v = Raise <-> cycle_from g v) /\
+  (forall l, hierarchy g v = Ok l ->
+     NoDup l /\ exists l', l = v :: l' /\ forall x, In x l' <-> ancestor g v x) /\
+  (~ cycle_from g v -> exists l, hierarchy g v = Ok l).
+Proof. exact hierarchy_correct. Qed.
+Print Assumptions C12_hierarchy_correct.
+
+(* never a hang: recursion depth n + 1 suffices *)
+Theorem C12_hierarchy_terminates : forall g v, wf g -> v < length g -> hierarchy g v <> OutOfFuel.
+Proof. exact hierarchy_terminates. Qed.
+Print Assumptions C12_hierarchy_terminates.
+
+(* ---- node_depth ------------------------------------------------------------------------------ *)
+Theorem C12_node_depth_correct : forall g v, wf g -> v < length g ->
+  (node_depth g v = Ok (-1)%Z <-> cycle_from g v) /\
+  (forall k, node_depth g v = Ok (Z.of_nat k) <-> height g v k) /\
+  (~ cycle_from g v -> exists k, node_depth g v = Ok (Z.of_nat k)).
+Proof. exact node_depth_correct. Qed.
+Print Assumptions C12_node_depth_correct.
+
+(* a list of nodes: -1 iff one of them reaches a cycle, otherwise the maximum (the `final_depth`
+   memo and the `subnodes` short-cut of the code are part of the model) *)
+Theorem C12_node_depth_list_correct : forall g vs,
+  wf g -> (forall v, In v vs -> v < length g) -> vs <> [] ->
+  (node_depth_list g vs = Ok (-1)%Z <-> exists v, In v vs /\ cycle_from g v) /\
+  (forall k, node_depth_list g vs = Ok (Z.of_nat k) <-> lheight g vs k) /\
+  ((forall v, In v vs -> ~ cycle_from g v) -> exists k, node_depth_list g vs = Ok (Z.of_nat k)).
+Proof. exact node_depth_list_correct. Qed.
+Print Assumptions C12_node_depth_list_correct.
+
+(* for every fuel on which the run returns a number *)
+Theorem C12_node_depth_sound : forall g fuel vs z, node_depth_fuel fuel g vs = Ok z ->
+  (z = (-1)%Z /\ exists v, In v vs /\ cycle_from g v) \/ (exists k, z = Z.of_nat k /\ lheight g vs k).
+Proof. exact node_depth_fuel_sound. Qed.
+Print Assumptions C12_node_depth_sound.
+
+(* ---- LinkedGraph.depth ------------------------------------------------------------------------ *)
+Theorem C12_depth_correct : forall g, wf g ->
+  (g = [] -> depth g = Ok 0%Z) /\
+  (g <> [] -> (depth g = Ok (-1)%Z <-> cyclic g) /\
+              (forall k, depth g = Ok (Z.of_nat k) <-> gheight g k) /\
+              (~ cyclic g -> exists k, depth g = Ok (Z.of_nat k))).
+Proof. exact depth_correct. Qed.
+Print Assumptions C12_depth_correct.
+
+(* a non-empty graph without sinks is cyclic: the `not self.root_nodes()` short-cut is right *)
+Theorem C12_no_sink_cyclic : forall g, wf g -> g <> [] -> root_nodes g = [] -> cyclic g.
+Proof. exact no_sink_cyclic. Qed.
+Print Assumptions C12_no_sink_cyclic.
+
+(* ---- the independent oracle of holds_b decides the specification ----------------------------- *)
+(* closure completeness: n-fold relational composition computes reachability on n nodes *)
+Theorem C12_closure_complete : forall n a x y,
+  mget (tc n a) x y = true <-> x < n /\ exists l, l <> [] /\ walk (mrel n a) x l y.
+Proof. exact tc_iff. Qed.
+Print Assumptions C12_closure_complete.
+
+Theorem C12_oracle_reflects : forall g, wf g ->
+  (forall x y, plus_b (mk_oracle g) x y = true <-> plus g x y) /\
+  (cyclic_b (mk_oracle g) = true <-> cyclic g) /\
+  (forall v, cycfrom_b (mk_oracle g) v = true <-> cycle_from g v) /\
+  (forall v a, In a (anc_b (mk_oracle g) v) <-> ancestor g v a) /\
+  (forall v, v < length g -> (sink_b (mk_oracle g) v = true <-> sink g v)) /\
+  (forall v, v < length g -> ~ cycle_from g v -> height g v (height_b (mk_oracle g) v)) /\
+  (0 < length g -> ~ cyclic g -> gheight g (gheight_b (mk_oracle g))).
+Proof.
+  intros g H. split; [apply plus_b_iff; exact H|]. split; [apply cyclic_b_iff; exact H|].
+  split; [apply cycfrom_b_iff; exact H|]. split; [apply anc_b_iff; exact H|].
+  split; [apply sink_b_iff; exact H|]. split; [apply height_b_correct; exact H|apply gheight_b_correct; exact H].
+Qed.
+Print Assumptions C12_oracle_reflects.
+
+(* what `holds_b g ob = true` (the executable check applied to the implementation's observed
+   answers `ob` on every run) means: the observed answers satisfy every clause of the property *)
+Theorem C12_holds_b_sound : forall g ob, wf g -> holds_b g ob = true -> obs_spec g ob.
+Proof. exact holds_b_sound. Qed.
+Print Assumptions C12_holds_b_sound.
+
+(* model and oracle coincide on closed graphs (two independent algorithms, one answer) *)
+Theorem C12_model_meets_oracle : forall g, wf g ->
+  has_cycle g = Some (cyclic_b (mk_oracle g)) /\
+  (forall v, v < length g -> node_depth g v = Ok (node_depth_truth (mk_oracle g) v)) /\
+  (forall v, v < length g ->
+     match hierarchy g v with
+     | Raise => cycfrom_b (mk_oracle g) v = true
+     | Ok l => cycfrom_b (mk_oracle g) v = false /\ NoDup l /\
+               exists l', l = v :: l' /\ forall x, In x l' <-> In x (anc_b (mk_oracle g) v)
+     | OutOfFuel => False
+     end).
+Proof.
+  intros g H. split; [apply has_cycle_oracle; exact H|].
+  split; intros v Hv; [apply node_depth_oracle|apply hierarchy_oracle]; assumption.
+Qed.
+Print Assumptions C12_model_meets_oracle.
+
+(* ---- non-vacuity: the hypotheses are satisfiable by non-trivial graphs ------------------------ *)
+Definition ex_dag : dg := [[1; 2]; [2; 3]; [3]; []; [3]].        (* 0 <- 1,2 ; 1 <- 2,3 ; 2 <- 3 ; 4 <- 3 *)
+Definition ex_cyc : dg := [[1]; [2]; [0; 3]; []; [4]].           (* 0 -> 1 -> 2 -> 0, self-loop at 4 *)
+
+Example ex_dag_wf : wf ex_dag.
+Proof. apply wf_b_iff. reflexivity. Qed.
+Example ex_cyc_wf : wf ex_cyc.
+Proof. apply wf_b_iff. reflexivity. Qed.
+Example ex_dag_answers :
+  has_cycle ex_dag = Some false /\ depth ex_dag = Ok 4%Z /\ root_nodes ex_dag = [0; 4] /\
+  hierarchy ex_dag 0 = Ok [0; 1; 2; 3] /\ node_depth ex_dag 1 = Ok 3%Z /\
+  node_depth_list ex_dag [4; 1; 3] = Ok 3%Z /\ holds_b ex_dag
+    {| ob_cycle := false; ob_depth := 4; ob_roots := [0; 4]; ob_children := [[]; [0]; [0; 1]; [1; 2; 4]; []];
+       ob_edges := [(1, 0); (2, 0); (2, 1); (3, 1); (3, 2); (3, 4)];
+       ob_hier := [Some [0; 1; 2; 3]; Some [1; 2; 3]; Some [2; 3]; Some [3]; Some [4; 3]];
+       ob_ndepth := [4; 3; 2; 1; 2]%Z; ob_ndlist := [([4; 1; 3], Some 3%Z)];
+       ob_dprim := []; ob_droot := [] |} = true.
+Proof. vm_compute. repeat split. Qed.
+Example ex_cyc_answers :
+  has_cycle ex_cyc = Some true /\ depth ex_cyc = Ok (-1)%Z /\
+  hierarchy ex_cyc 0 = Raise /\ hierarchy ex_cyc 3 = Ok [3] /\
+  node_depth ex_cyc 1 = Ok (-1)%Z /\ node_depth ex_cyc 3 = Ok 1%Z /\ node_depth ex_cyc 4 = Ok (-1)%Z.
+Proof. vm_compute. repeat split. Qed.
+Example ex_cyc_cyclic : cyclic ex_cyc /\ cycle_from ex_cyc 1 /\ ~ cycle_from ex_cyc 3.
+Proof.
+  pose proof (C12_has_cycle_correct ex_cyc (cycle_fuel ex_cyc) true eq_refl) as C.
+  pose proof (C12_hierarchy_correct ex_cyc 1 ex_cyc_wf ltac:(simpl; auto with arith)) as H1.
+  pose proof (C12_hierarchy_sound ex_cyc 6 3) as H3.
+  split; [apply C; reflexivity|]. split; [apply H1; reflexivity|apply (proj2 H3 [3]); reflexivity].
+Qed.
+Example ex_dag_height : height ex_dag 0 4 /\ gheight ex_dag 4 /\ ~ cyclic ex_dag.
+Proof.
+  pose proof (C12_node_depth_correct ex_dag 0 ex_dag_wf ltac:(simpl; auto with arith)) as H.
+  pose proof (C12_depth_correct ex_dag ex_dag_wf) as D.
+  split; [apply (proj1 (proj2 H) 4); reflexivity|].
+  split; [apply (proj1 (proj2 (proj2 D ltac:(discriminate))) 4); reflexivity|].
+  intros C. apply (C12_has_cycle_correct ex_dag (cycle_fuel ex_dag) false eq_refl) in C. discriminate.
+Qed.
